@@ -124,8 +124,7 @@ Proof.
   destruct (c11_expectedMemberSize bytes_index extra) as [bs| | |] eqn:E; try contradiction; [|exact I]. cbn [obind].
   pose proof (expectedMemberSize_range _ _ _ Hbe E) as R.
   destruct (bs <? 0) eqn:E0; [exact I|]. apply Z.ltb_ge in E0.
-  destruct (bs - (zlen s - zlen rest) =? 0); [exact I|].
-  destruct (bs - (zlen s - zlen rest) <? 0) eqn:E1; [exact I|]. apply Z.ltb_ge in E1.
+  destruct (bs - (zlen s - zlen rest) <=? 0) eqn:E1; [exact I|]. apply Z.leb_gt in E1.
   rewrite chk_true.
   - destruct (take _ rest) as [[x y]|]; exact I.
   - unfold maxBlockSize. change bgzf_MaxBlockSize with 65536. rewrite andb_true_iff, !Z.leb_le. lia.
